@@ -41,6 +41,7 @@
 #include "utils/macro.h"
 #include "utils/mem_utils.h"
 #include "al/os.h"
+#include "al/verif.h"
 #include "threadpool/threadpool.h"
 #include "threadpool/threadpool_msg_sys.h"
 
@@ -61,6 +62,10 @@ typedef struct tpt_msg_pkt_s { /* thread message packet data. */
 
 #define TPT_MSG_PKT_MAGIC	0xffddaa00
 #define TPT_MSG_COUNT_TO_READ	1024 /* Read messages count at one read() call. */
+#if defined(LIBLCB_VERIF) && defined(LIBLCB_VERIF_MSG_COUNT_TO_READ)
+#	undef TPT_MSG_COUNT_TO_READ
+#	define TPT_MSG_COUNT_TO_READ	LIBLCB_VERIF_MSG_COUNT_TO_READ
+#endif
 
 #define TPT_MSG_PKT_CHK_SUM_SET(__msg_pkt)				\
     (__msg_pkt)->chk_sum = (((size_t)(__msg_pkt)->msg_cb) ^ ((size_t)(__msg_pkt)->udata))
@@ -146,6 +151,7 @@ tpt_msg_recv_and_process(tp_event_p ev, tp_udata_p tp_udata) {
 			}
 			if (NULL == msg[i].msg_cb)
 				continue;
+			LIBLCB_VERIF_YIELD("tpt_msg_recv.cb");
 			msg[i].msg_cb(tp_udata->tpt, msg[i].udata);
 		}
 		if (sizeof(msg) > readed) /* All data read. */
@@ -300,6 +306,7 @@ tpt_msg_send(tpt_p dst, tpt_p src, uint32_t flags,
 		return (0);
 	}
 
+	LIBLCB_VERIF_YIELD("tpt_msg_send.running");
 	msg.magic = TPT_MSG_PKT_MAGIC;
 	msg.msg_cb = msg_cb;
 	msg.udata = udata;
